@@ -252,13 +252,14 @@ Fixpoint nm_walk (fs : fsmap) (k : ikind) (user : list str) (fuel : nat) (dir : 
 (* loadNodeModules with forbidImports = true *)
 Definition load_node_modules_noimports (fs : fsmap) (k : ikind) (user : list str) (dir : path) (spec : str)
   : option path :=
-  let '(name, subpath, _) := name_and_subpath spec in
+  let '(name, subpath, ok) := name_and_subpath spec in
   let self :=
     match nearest_pkg fs (length dir) dir with
     | Some (pdir, pk) =>
         match exports_of pk with
         | Some ex =>
-            if str_eqb (match pk_name pk with Some n => n | None => [] end) name
+            (* since the fix d8f247a: only a valid package name can be a self reference *)
+            if ok && str_eqb (match pk_name pk with Some n => n | None => [] end) name
             then Some (esm_resolve fs k user pdir subpath ex) else None
         | None => None
         end
@@ -279,7 +280,7 @@ Section Builtins.
   Definition load_package_imports (fs : fsmap) (k : ikind) (user : list str) (spec : str)
              (pdir : path) (imports : json) : rres :=
     if str_eqb spec [ch_hash] then RFail
-    else match parse_root imports with
+    else match parse_root_imports imports with
          | None => RFail   (* unreachable: importsMap != nil was checked *)
          | Some root =>
              let r := handle_post_conditions (imports_resolve spec root (conds_of k user)) in
@@ -293,7 +294,7 @@ Section Builtins.
 
   Definition imports_of (pk : pkginfo) : option json :=
     match pk_imports pk with
-    | Some j => match parse_root j with Some _ => Some j | None => None end
+    | Some j => match parse_root_imports j with Some _ => Some j | None => None end
     | None => None
     end.
 
